@@ -1,6 +1,136 @@
-(** Entry points for C04 (stub: replaced by the property's own entry file). *)
-From Coq Require Import ZArith List.
-From GV Require Import Base.Val.
+(** Entry points for C04 (loading a reference database; Model/C04.v, Spec/C04.v).
+
+    wire formats   idv      : (0 z) integer | (1 c ...) string as code points
+                   genome   : (pk key genbank refseq ncbi), the four as options () / (idv)
+                   meta     : () id_attr None | (n) n = 0 key 1 genbank_acc 2 refseq_acc 3 ncbi_id,
+                              anything else = some other string
+                   dir      : ((name content) ...), name = code points,
+                              content 0 genome db | 1 signature file | 2 directory | other junk
+                   loaded   : (0 ((pk ...) (sig_index ...))) | (1 code)
+                   code     : 1 id_attr None  2 bad attribute name  3 genomes without value
+                              4 unmatched genomes  5 duplicated match  6/7 no/multiple genome files
+                              8/9 no/multiple signature files  10/11 located entry is not a genome
+                              db / signature file *)
+From Coq Require Import ZArith List Bool.
+From GV Require Import Base.Val Model.C04 Spec.C04.
+Import ListNotations.
 Open Scope Z_scope.
 
-Definition dispatch (op : Z) (a : val) : val := vbad.
+Definition vzs (l : list Z) : val := VL (map VI l).
+
+Definition to_idv (v : val) : option idv :=
+  match v with
+  | VL [VI 0; VI z] => Some (IInt z)
+  | VL (VI 1 :: s) => Some (IStr (map to_Z s))
+  | _ => None
+  end.
+
+Definition to_oid (v : val) : option (option idv) :=
+  match v with
+  | VL [] => Some None
+  | VL [x] => match to_idv x with Some i => Some (Some i) | None => None end
+  | _ => None
+  end.
+
+Definition to_genome (v : val) : option genome :=
+  match v with
+  | VL [VI pk; k; gb; rs; nc] =>
+      match to_oid k, to_oid gb, to_oid rs, to_oid nc with
+      | Some k', Some gb', Some rs', Some nc' => Some (mkGenome pk k' gb' rs' nc')
+      | _, _, _, _ => None
+      end
+  | _ => None
+  end.
+
+Definition to_genomes (v : val) : option (list genome) := all_some (map to_genome (to_list v)).
+Definition to_ids (v : val) : option (list idv) := all_some (map to_idv (to_list v)).
+
+Definition to_attr (z : Z) : attrname :=
+  match z with 0 => Known AKey | 1 => Known AGenbank | 2 => Known ARefseq | 3 => Known ANcbi | _ => Unknown end.
+
+Definition to_meta (v : val) : option attrname :=
+  match v with VL [VI z] => Some (to_attr z) | _ => None end.
+
+Definition to_content (z : Z) : content :=
+  match z with 0 => CGenomeDb | 1 => CSigFile | 2 => CDir | _ => CJunk end.
+
+Definition to_entry (v : val) : option (name * content) :=
+  match v with VL [n; VI c] => Some (to_Zs n, to_content c) | _ => None end.
+
+Definition to_dir (v : val) : option (list (name * content)) := all_some (map to_entry (to_list v)).
+
+Definition lerr_code (e : lerr) : Z :=
+  match e with
+  | EIdAttrNone => 1 | EBadAttr => 2 | EMissingIds _ => 3 | EUnmatched _ _ => 4 | EDuplicate => 5
+  | ENoGenomeFile => 6 | EMultiGenomeFile => 7 | ENoSigFile => 8 | EMultiSigFile => 9
+  | ENotGenomeDb => 10 | ENotSigFile => 11
+  end.
+
+Definition vloaded (r : lres loaded) : val :=
+  match r with
+  | Ok (genomes, idxs) => vok (VL [VL (map (fun g => VI (g_pk g)) genomes); vlist vnat idxs])
+  | Error e => verr (lerr_code e)
+  end.
+
+Definition with_db (a : val) (f : list genome -> option attrname -> list idv -> val) : val :=
+  match a with
+  | VL [g; m; i] =>
+      match to_genomes g, to_ids i with
+      | Some gs, Some ids => f gs (to_meta m) ids
+      | _, _ => vbad
+      end
+  | _ => vbad
+  end.
+
+Definition dispatch (op : Z) (a : val) : val :=
+  match op with
+  (* 1: ReferenceDatabase.__init__ as found  (genomes meta ids) *)
+  | 1 => with_db a (fun gs m ids => vloaded (init_orig gs m ids))
+  (* 2: the repaired constructor *)
+  | 2 => with_db a (fun gs m ids => vloaded (init_fixed gs m ids))
+  (* 3 / 4: load_from_dir with the repaired / original constructor  (dir genomes meta ids) *)
+  | 3 => match a with
+         | VL [d; g; m; i] =>
+             match to_dir d with
+             | Some dir => with_db (VL [g; m; i]) (fun gs mt ids => vloaded (load_from_dir init_fixed dir gs mt ids))
+             | None => vbad
+             end
+         | _ => vbad
+         end
+  | 4 => match a with
+         | VL [d; g; m; i] =>
+             match to_dir d with
+             | Some dir => with_db (VL [g; m; i]) (fun gs mt ids => vloaded (load_from_dir init_orig dir gs mt ids))
+             | None => vbad
+             end
+         | _ => vbad
+         end
+  (* 5: locate_files (name ...) -> (0 (genome_name sig_name)) | (1 code) *)
+  | 5 => match locate_files (map to_Zs (to_list a)) with
+         | Ok (g, s) => vok (VL [vzs g; vzs s])
+         | Error e => verr (lerr_code e)
+         end
+  (* 6: PurePath.suffix *)
+  | 6 => vzs (suffix (to_Zs a))
+  (* 7: specification: is the file complete and unambiguous for the genome set?  (attr genomes ids) *)
+  | 7 => match a with
+         | VL [VI n; g; i] =>
+             match to_attr n, to_genomes g, to_ids i with
+             | Known att, Some gs, Some ids => vbool (completeb att gs ids)
+             | _, _, _ => vbad
+             end
+         | _ => vbad
+         end
+  (* 8: jaccarddist_matrix with the cell (query, ref):  (refs idxs chunksize_opt queries) *)
+  | 8 => match a with
+         | VL [r; ix; cs; q] =>
+             match jaccarddist_matrix (fun x y : Z => VL [VI x; VI y]) (to_Zs q) (to_Zs r) (to_nats ix)
+                     (to_opt to_nat cs) with
+             | MOk rows => vok (VL (map VL rows))
+             | MError MIndexError => verr 1
+             | MError MChunkSize => verr 2
+             end
+         | _ => vbad
+         end
+  | _ => vbad
+  end.
